@@ -1,9 +1,10 @@
 #!/bin/bash
-# verify_seed.sh <patch.diff> <demo.diff|-> <demo test filter|-> <outdir>
-# Confirms, in a scratch worktree of /repo's HEAD (outside /repo and /verif): the patch compiles, the baseline tests that
-# pass without it still pass with it, and (if given) the demonstration fails with the patch and passes without it.
+# verify_seed.sh <patch.diff> <demo.diff|-> <demo test name pattern|-> <outdir>
+# Confirms, in a scratch worktree of /repo's HEAD (outside /repo and /verif): the patch compiles, every test that passes
+# without it still passes with it (a test that fails once is re-run up to 3 times: a few baseline tests are timing-flaky),
+# and (if given) the demonstration tests matching the pattern fail with the patch and pass without it.
 set -u
-PATCH=$1; DEMO=$2; FILTER=$3; OUT=$4
+PATCH=$1; DEMO=$2; PATTERN=$3; OUT=$4
 export CARGO_NET_OFFLINE=true
 WT=$(mktemp -d /tmp/seedwt-XXXXXX)
 mkdir -p "$OUT"
@@ -18,14 +19,24 @@ if ! git apply "$PATCH" 2>"$OUT/apply.err" && ! { git apply --3way "$PATCH" 2>>"
 git diff > "$OUT/applied.diff"
 if ! cargo build --workspace --offline 2>"$OUT/build.err" >/dev/null; then echo "DOES-NOT-COMPILE"; tail -20 "$OUT/build.err"; exit 5; fi
 run_tests > "$OUT/tests_after.txt"
-LOST=$(comm -23 <(grep '^PASS' "$OUT/tests_before.txt") <(grep '^PASS' "$OUT/tests_after.txt") | wc -l)
-echo "tests: before $(grep -c '^PASS' $OUT/tests_before.txt) pass, after $(grep -c '^PASS' $OUT/tests_after.txt) pass, newly failing: $LOST"
-comm -23 <(grep '^PASS' "$OUT/tests_before.txt") <(grep '^PASS' "$OUT/tests_after.txt")
+comm -23 <(grep '^PASS' "$OUT/tests_before.txt") <(grep '^PASS' "$OUT/tests_after.txt") | sed 's/^PASS //' > "$OUT/lost.txt"
+: > "$OUT/really_lost.txt"
+while read -r t; do
+  [ -z "$t" ] && continue
+  okc=0
+  for i in 1 2 3; do
+    if cargo test --workspace --no-fail-fast --offline 2>&1 | grep -qE "^test $t \.\.\. ok"; then okc=1; break; fi
+  done
+  [ $okc = 0 ] && echo "$t" >> "$OUT/really_lost.txt"
+done < "$OUT/lost.txt"
+echo "tests: before $(grep -c '^PASS' $OUT/tests_before.txt) pass, after $(grep -c '^PASS' $OUT/tests_after.txt) pass; failing once with the patch: $(wc -l < $OUT/lost.txt); failing in 3 re-runs (really lost): $(wc -l < $OUT/really_lost.txt)"
+cat "$OUT/really_lost.txt"
 if [ "$DEMO" != "-" ]; then
   git apply "$DEMO" 2>"$OUT/demo_apply.err" || { echo "DEMO-DOES-NOT-APPLY"; cat "$OUT/demo_apply.err"; }
-  cargo test --offline --workspace "$FILTER" 2>&1 | grep -E "^test .* \.\.\. |test result" > "$OUT/demo_with_patch.txt"
-  echo "demo WITH patch:"; grep -E "FAILED|ok$" "$OUT/demo_with_patch.txt" | head -5
+  cargo test --offline --workspace --no-fail-fast 2>&1 | grep -E "^test .* \.\.\. (ok|FAILED)" | grep -E "$PATTERN" > "$OUT/demo_with_patch.txt"
+  echo "demo WITH patch:"; cat "$OUT/demo_with_patch.txt"
   git reset -q --hard HEAD; git clean -fdq; git apply "$DEMO" 2>/dev/null
-  cargo test --offline --workspace "$FILTER" 2>&1 | grep -E "^test .* \.\.\. |test result" > "$OUT/demo_without_patch.txt"
-  echo "demo WITHOUT patch:"; grep -E "FAILED|ok$" "$OUT/demo_without_patch.txt" | head -5
+  cargo test --offline --workspace --no-fail-fast 2>&1 | grep -E "^test .* \.\.\. (ok|FAILED)" | grep -E "$PATTERN" > "$OUT/demo_without_patch.txt"
+  echo "demo WITHOUT patch:"; cat "$OUT/demo_without_patch.txt"
+  if grep -q FAILED "$OUT/demo_with_patch.txt" && ! grep -q FAILED "$OUT/demo_without_patch.txt" && grep -q "ok$" "$OUT/demo_without_patch.txt"; then echo "DEMO-CONFIRMED"; else echo "DEMO-NOT-CONFIRMED"; fi
 fi
